@@ -13,7 +13,10 @@ CHECKS = {
     "C01": dict(level="model_checking", ref="DESIGN.md §4 C01, §9",
                 text="Exhaustive TLC check of the process-core design (state word, mailbox push halves, run loop, Kill) for small scenarios; every "
                      "transition of the model's state graph is replayed on the real code under a controlling scheduler (sampled in the quick tier) and the recorded "
-                     "executions, plus free-running parallel executions, are validated by TLC: at most one callback in progress at any instant.",
+                     "executions, plus free-running parallel executions, are validated by TLC: at most one callback in progress at any instant. Meta-processes: TLA+ model "
+                     "MetaCore (Start goroutine, handler goroutines, senders) model-checked both ways (invariants hold; the Terminate-overlap counterexample P15 and the "
+                     "sleep-store mutation are found); one- and two-preemption scenarios park a goroutine of a real meta-process at each meta.* yield point or inside a "
+                     "callback while Start returns, messages or an exit arrive; the callback log is validated by TLC against MetaObs (SerialHandlers, SerialTerm, AtMostOnce, NoLoss).",
                 note=PC_NOTE, tech=PC_TECH),
     "C02": dict(level="model_checking", ref="DESIGN.md §4 C02, §9",
                 text="Same machinery as C01; clauses: no lost wake-up (nothing left in the mailbox of a sleeping process at quiescence), accepted = handled "
@@ -25,7 +28,8 @@ CHECKS = {
                 note=PC_NOTE, tech=PC_TECH),
     "C05": dict(level="model_checking", ref="DESIGN.md §4 C05, §9",
                 text="Same machinery as C01 with termination causes as threads (handler error, panic, untrapped/parent/trapped exit, Kill, double Kill): terminate "
-                     "runs once, after the last handler, with a reason that is one of the racing causes; a Kill that returned leaves the process dead.",
+                     "runs once, after the last handler, with a reason that is one of the racing causes; a Kill that returned leaves the process dead. Meta-processes: the "
+                     "MetaCore / MetaObs stage described under C01 with the clauses TermOnce, Final (no callback begins after Terminate began) and SerialTerm.",
                 note=PC_NOTE, tech=PC_TECH),
 }
 
